@@ -44,6 +44,7 @@ static int sp_in[3];           /* harness pool: is ULTk queued */
 static int vr_resumed[3];      /* number of times ULTk was resumed by the switch model */
 static int vr_saved[3];        /* context of ULTk completely saved (may be run elsewhere) */
 
+static int vr_env_noblock;    /* set (constant) while an environment agent runs a call that must not block: blocking paths are pruned */
 static void env_step(void);                 /* harness: one complete operation of some other agent (or nothing) */
 static void vr_after_switch(int k);         /* harness: ULTk has switched away; return when it runs again */
 static void vr_stuck(const char *where);    /* harness: nobody can act any more while somebody sleeps: assert the stuck predicate */
@@ -96,6 +97,7 @@ static int ult_index_of_ctx(fcontext_t *c) { for (int i = 0; i < NES; i++) if (c
 
 void switch_with_call_fcontext(void *cb_arg, void (*f_cb)(void *), fcontext_t *p_new_ctx, fcontext_t *p_old_ctx)
 {
+    if (vr_env_noblock) { __CPROVER_assume(0); return; }
     int k = ult_index_of_ctx(p_old_ctx);
     __CPROVER_assert(k >= 0, "switch model: the switching context is a work ULT");
     p_old_ctx->dummy = (void *)1;      /* context stored ... */
@@ -123,6 +125,7 @@ static int vr_futex_timeouts;
 long vr_futex_wake(int *addr) { vr_futex_wakes++; return 0; }
 long vr_futex_wait(int *addr, int val, const void *ts)
 {
+    if (vr_env_noblock) { __CPROVER_assume(0); return 0; }
     if (*addr != val) return -1;                      /* EAGAIN: the word already changed */
     int me = cur_agent();
     int wakes0 = vr_futex_wakes;
